@@ -5,6 +5,7 @@ NAME = "creek"
 MODULE = "cspuz.puzzle.creek"
 FUNC = "solve_creek"
 TIER1 = ("Creek", "solve_creek_model")
+TIER1_PRIM = ("CreekPrim", "solve_creek_model_prim")
 VALUES = [-1, 0, 1, 2, 3, 4]
 
 
